@@ -173,10 +173,18 @@ def check_history(hist, timeout_s):
 
 # ------------------------------------------------------------------ part B
 
-def stochastic_model():
+B_SPECS = [(0.0, 1.0, 2), (0.0, 0.1, 4), (1.0, 0.2, 3), (0.5, 0.25, 3), (2.0, 0.1, 3)]     # (start, dt, steps): dyadic and decimal dt
+
+
+def b_grid(spec):
+    fs, fd = Fraction(str(spec[0])), Fraction(str(spec[1]))
+    return [float(fs + k * fd) for k in range(spec[2] + 1)]
+
+
+def stochastic_model(spec=B_SPECS[0]):
     from BPTK_Py import Model
     from BPTK_Py import sd_functions as sd
-    m = Model(starttime=0.0, stoptime=2.0, dt=1.0, name="c08b")
+    m = Model(starttime=spec[0], stoptime=b_grid(spec)[-1], dt=spec[1], name="c08b")
     X, Y, Z, St = m.converter("X"), m.converter("Y"), m.converter("Z"), m.stock("St")
     X.equation = sd.random(0.0, 1.0)
     Y.equation = X * 2.0
@@ -193,27 +201,31 @@ def check_part_b(timeout_s):
     names = ["X", "Y", "Z", "St"]
     bad = []
     n = 0
-    for r in (1, 2, 3, 4):
+    for spec in B_SPECS:
+      ts = b_grid(spec)
+      for r in (1, 2, 3, 4):
         for sub in itertools.permutations(names, r):
             n += 1
-            m = stochastic_model()
+            m = stochastic_model(spec)
             sim = SdSimulation(model=m, name="b")
             df = sim.start(output=["frame"], equations=list(sub))
             val = lambda e, t: df[e][t] if e in sub else m.memoize(e, t)
-            for t in (0.0, 1.0, 2.0):
+            for t in ts:
                 x = S.term_of(val("X", t))
                 if not (x.op == "var"):
-                    bad.append((sub, "X(%s) is not a single draw: %s" % (t, T.show(x))))
+                    bad.append((sub, spec, "X(%s) is not a single draw: %s" % (t, T.show(x))))
                     continue
                 for e, ref in (("Y", T.mul(x, T.const(2))), ("Z", T.add(x, T.mul(x, T.const(2))))):
                     v = solve.prove_equal(S.term_of(val(e, t)), ref, (), timeout_s=timeout_s)
                     if v.status != "holds":
-                        bad.append((sub, "%s(%s) was computed from a different draw than the reported X(%s)" % (e, t, t)))
+                        bad.append((sub, spec, "%s(%s) was computed from a different draw than the reported X(%s)" % (e, t, t)))
             # the stock consumed the reported draws
-            x0, x1 = S.term_of(val("X", 0.0)), S.term_of(val("X", 1.0))
-            v = solve.prove_equal(S.term_of(val("St", 2.0)), T.add(x0, x1), (), timeout_s=timeout_s)
+            acc = T.const(0)
+            for t in ts[:-1]:
+                acc = T.add(acc, T.mul(T.const(spec[1]), S.term_of(val("X", t))))
+            v = solve.prove_equal(S.term_of(val("St", ts[-1])), acc, (), timeout_s=timeout_s)
             if v.status != "holds":
-                bad.append((sub, "St(2) did not integrate the reported X(0), X(1)"))
+                bad.append((sub, spec, "St(%s) did not integrate the reported X draws" % ts[-1]))
     return n, bad
 
 
@@ -222,6 +234,8 @@ def replay_b(case):
     import random as _r
     from BPTK_Py.sdsimulation.sd_simulation import SdSimulation
     sub = case["sub"]
+    spec = tuple(case.get("spec", B_SPECS[0]))
+    ts = b_grid(spec)
     cnt = [0]
     old = _r.uniform
 
@@ -230,16 +244,20 @@ def replay_b(case):
         return float(cnt[0])
     _r.uniform = fake
     try:
-        m = stochastic_model()
+        m = stochastic_model(spec)
         df = SdSimulation(model=m, name="b").start(output=["frame"], equations=list(sub))
-        for t in (0.0, 1.0, 2.0):
-            x = df["X"][t] if "X" in sub else m.memoize("X", t)
-            y = df["Y"][t] if "Y" in sub else m.memoize("Y", t)
+        val = lambda e, t: df[e][t] if e in sub else m.memoize(e, t)
+        for t in ts:
+            x, y = val("X", t), val("Y", t)
             if y != 2.0 * x:
-                return True, "requested %s: X(%s)=%r but Y(%s)=%r" % (sub, t, x, t, y)
+                return True, "requested %s, start %s dt %s: X(%s)=%r but Y(%s)=%r" % (sub, spec[0], spec[1], t, x, t, y)
+        want = sum(spec[1] * val("X", t) for t in ts[:-1])
+        got = val("St", ts[-1])
+        if abs(got - want) > 1e-9 * (1 + abs(want)):
+            return True, "requested %s, start %s dt %s: St(%s)=%r but the reported draws integrate to %r" % (sub, spec[0], spec[1], ts[-1], got, want)
     finally:
         _r.uniform = old
-    return False, "requested %s: one draw per (X, t)" % (sub,)
+    return False, "requested %s, start %s dt %s: one draw per (X, t)" % (sub, spec[0], spec[1])
 
 
 def replay(case):
@@ -328,13 +346,18 @@ def run(tier):
         seen.add(sig)
         env = {k: float(v) for k, v in info.items() if isinstance(v, (Fraction, int, float)) and not isinstance(v, bool)}
         rep.candidate(sig, {"hist": [list(x) for x in h], "env": env}, "history %s after op %s: %s" % (h, i, info.get("_what")))
-    for sub, what in bad_b[:1]:
-        rep.candidate("ambiguous:sequential", {"kind": "b", "sub": list(sub)}, "requested %s: %s" % (sub, what))
+    seen_b = set()
+    for sub, spec, what in bad_b:
+        sig = "ambiguous:sequential" + ("" if spec == B_SPECS[0] else ":dt=%g" % spec[1])
+        if sig in seen_b:
+            continue
+        seen_b.add(sig)
+        rep.candidate(sig, {"kind": "b", "sub": list(sub), "spec": list(spec)}, "requested %s (start %s, dt %s): %s" % (sub, spec[0], spec[1], what))
     # part C
     from checks import c08_sched
     sched = c08_sched.run_part(rep, tier)
     rep.assume("part A: 7-element model (3 constants, converter, flow, stock, sum); every edit writes a fresh symbol; histories exhaustive to length 2 (+ eval-first length 3)",
-               "part B: random.* replaced by a fresh-symbol stub; worker threads joined one by one (deterministic thread stub)",
+               "part B: random.* replaced by a fresh-symbol stub; worker threads joined one by one (deterministic thread stub); run specs %s" % (B_SPECS,),
                "part C: 2 threads, source-line granularity, schedule length bound; see evidence.sched")
     rep.coverage.update({"states": len(hs) + nb + sched.get("states", 0), "transitions": max(1, counts["holds"] + nb - len(bad_b) + sched.get("transitions", 0)),
                          "traces_validated_against_impl": len(seen) + sched.get("replayed", 0),
